@@ -67,6 +67,11 @@ func genC09(rng *rand.Rand, tier string) *sim.Plan {
 		sp.Ops = append(sp.Ops, sim.Op{K: "subscribe", C: c, Subs: []mqttc.Sub{{Filter: fmt.Sprintf("e/%d/+", c), QoS: 1}, {Filter: fmt.Sprintf("keep/%d", c), QoS: byte(rng.IntN(3))}}})
 		if chance(rng, 0.8) {
 			sp.Ops = append(sp.Ops, sim.Op{K: "unsubscribe", C: c, Filters: []string{fmt.Sprintf("e/%d/+", c)}})
+			if c == 1 && chance(rng, 0.5) {
+				// the same subscription is made through the API while the client removes it: whatever the
+				// order, the running broker and the store must agree afterwards (C09.mem_vs_store)
+				sp.Ops = append(sp.Ops, sim.Op{K: "api_subscribe", C: -3, Target: p.Clients[1].ID, Subs: []mqttc.Sub{{Filter: "e/1/+", QoS: 1}}, Delay: sim.Us(rng.IntN(300))})
+			}
 		}
 	}
 	p.Phases = append(p.Phases, sp)
@@ -90,6 +95,7 @@ func genC09(rng *rand.Rand, tier string) *sim.Plan {
 	if chance(rng, 0.5) {
 		p.Phases = append(p.Phases, sim.Phase{Ops: []sim.Op{conn(1, "")}}, pubPhase())
 	}
+	p.Phases = append(p.Phases, sim.Phase{Ops: []sim.Op{{K: "api_custom", C: -2, Custom: "c09_dump"}}})
 	p.Params = map[string]string{"prefixes": "12"}
 	if tier == "thorough" {
 		p.Params["prefixes"] = "all"
@@ -170,6 +176,7 @@ func runC09(tb TB, p *sim.Plan) *sim.Outcome {
 		kUnsubInv, kUnsubAck int // -1: never unsubscribed
 	}
 	var subs []*subFact
+	apiTouched := map[string]bool{} // "client id|filter" also changed through the API (order unknown)
 	connK := map[int]int{}
 	for _, o := range h.Ops {
 		switch o.Op.K {
@@ -193,6 +200,10 @@ func runC09(tb TB, p *sim.Plan) *sim.Outcome {
 					}
 					subs = append(subs, &subFact{client: o.Op.C, sub: s, granted: o.Ack.Codes[i], id: id, kAck: kOf(o.Resp), kUnsubInv: -1, kUnsubAck: -1})
 				}
+			}
+		case "api_subscribe":
+			for _, s := range o.Op.Subs {
+				apiTouched[o.Op.Target+"|"+s.Filter] = true
 			}
 		case "unsubscribe":
 			for _, f := range o.Op.Filters {
@@ -237,6 +248,45 @@ func runC09(tb TB, p *sim.Plan) *sim.Outcome {
 	for _, r := range h.Recs {
 		if r.Kind == "rx" && (r.C == 0 || r.C == 1) && r.Pkt.Type == mqttc.PUBLISH {
 			gotA[r.C][string(r.Pkt.Payload)] = true
+		}
+	}
+	// C09.mem_vs_store: at the quiescent end of run A the running broker's subscription index and the store agree
+	{
+		var dumpA *c09dump
+		for _, o := range h.Ops {
+			if o.Op.K == "api_custom" && o.Op.Custom == "c09_dump" && o.Ret != nil {
+				dumpA, _ = o.Ret.(*sim.APIResult).Val.(*c09dump)
+			}
+		}
+		if dumpA != nil {
+			snapA := simredis.FromJournal(J, p.Seed).Snapshot()
+			out.Probes["mem_vs_store_compared"]++
+			for _, c := range p.Clients {
+				mem := map[string]bool{}
+				for _, sv := range dumpA.Subs[c.ID] {
+					f := sv.Filter
+					if sv.Share != "" {
+						f = "$share/" + sv.Share + "/" + f
+					}
+					mem[f] = true
+				}
+				st := map[string]bool{}
+				if hsh, ok := snapA["sub:"+c.ID].(map[string]string); ok {
+					for f := range hsh {
+						st[f] = true
+					}
+				}
+				for f := range mem {
+					if !st[f] {
+						vs = append(vs, viol("C09", "mem_vs_store", "sub-only-in-memory", "end of the history (quiescent): the running broker holds subscription %q of client %q but the store does not: a restart would lose it", f, c.ID))
+					}
+				}
+				for f := range st {
+					if !mem[f] {
+						vs = append(vs, viol("C09", "mem_vs_store", "sub-only-in-store", "end of the history (quiescent): the store holds subscription %q of client %q but the running broker does not: a restart would resurrect it", f, c.ID))
+					}
+				}
+			}
 		}
 	}
 	// crash points
@@ -313,6 +363,17 @@ func runC09(tb TB, p *sim.Plan) *sim.Outcome {
 		rp.Ops = append(rp.Ops, sim.Op{K: "api_custom", C: -1, Custom: "c09_dump"}, sim.Op{K: "publish", C: 3, Topic: "d/x", QoS: 1, Payload: "probe"})
 		rp.TimeoutS = 20
 		pb.Phases = append(pb.Phases, rp)
+		// the publisher completes the withheld QoS 2 flows and then uses the same packet identifiers for new messages
+		var cp sim.Phase
+		for _, pf := range pubs {
+			if pf.held && pf.kAck >= 0 && pf.kAck <= k {
+				cp.Ops = append(cp.Ops, sim.Op{K: "pubrel", C: 2, PID: pf.pid}, sim.Op{K: "publish", C: 2, Topic: "d/x", QoS: 2, PID: pf.pid, Payload: "re-" + pf.payload})
+			}
+		}
+		if len(cp.Ops) > 0 {
+			cp.TimeoutS = 20
+			pb.Phases = append(pb.Phases, cp)
+		}
 		b := sim.Run(t, pb, c09setup(storeB))
 		out.Steps += b.Steps
 		out.Switches += b.Switches
@@ -374,7 +435,7 @@ func runC09(tb TB, p *sim.Plan) *sim.Outcome {
 					}
 				}
 				mustHave := sf.kAck <= k && (sf.kUnsubInv < 0 || sf.kUnsubInv > k) && connK[sf.client] <= k
-				mustNot := sf.kUnsubAck >= 0 && sf.kUnsubAck <= k
+				mustNot := sf.kUnsubAck >= 0 && sf.kUnsubAck <= k && !apiTouched[cid+"|"+sf.sub.Filter]
 				if mustHave && found == nil {
 					vs = append(vs, viol("C09", "subs", "sub-lost", "%s: subscription %q of client %q (SUBACK after %d commands) is gone", where, sf.sub.Filter, cid, sf.kAck))
 				}
@@ -445,6 +506,41 @@ func runC09(tb TB, p *sim.Plan) *sim.Outcome {
 				}
 			}
 		}
+		// C09.id_release: once PUBREL / PUBCOMP completed a QoS 2 flow that had survived the crash, its packet
+		// identifier is free again: a new QoS 2 message with that identifier is a new message
+		if pubOK {
+			s2ok := false
+			for _, o := range b.H.Ops {
+				if o.Op.K == "connect" && o.Op.C == 1 && o.Ack != nil && o.Ack.Code == 0 && o.Ack.SessionPresent {
+					s2ok = true
+				}
+			}
+			var s2 *subFact
+			for _, sf := range subs {
+				if sf.client == 1 && sf.sub.Filter == "d/#" && sf.kAck <= k {
+					s2 = sf
+				}
+			}
+			for _, o := range b.H.Ops {
+				if o.Op.K != "publish" || !strings.HasPrefix(o.Op.Payload, "re-") || o.Result != "ok" {
+					continue
+				}
+				// the PUBREL before it must have been answered
+				relOK := false
+				for _, o2 := range b.H.Ops {
+					if o2.Op.K == "pubrel" && o2.Op.PID == o.Op.PID && o2.Result == "ok" {
+						relOK = true
+					}
+				}
+				if !relOK || !s2ok || s2 == nil || p.Clients[1].ID == p.Clients[2].ID {
+					continue
+				}
+				out.Probes["id_reuse_checked"]++
+				if gotB[1][o.Op.Payload] == 0 {
+					vs = append(vs, viol("C09", "id_release", "id-stuck", "%s: after the restart the publisher completed its QoS 2 flow %d (PUBREL answered by PUBCOMP) and sent a new QoS 2 message %q with the same packet identifier; it was acknowledged but never forwarded to subscriber %q (treated as a duplicate of the old message)", where, o.Op.PID, o.Op.Payload, p.Clients[1].ID))
+				}
+			}
+		}
 		if len(vs) > 0 && p.Params["k"] == "" {
 			// remember the first failing crash point for the replay file
 			if p.Params == nil {
@@ -452,6 +548,44 @@ func runC09(tb TB, p *sim.Plan) *sim.Outcome {
 			}
 			p.Params["k_first"] = fmt.Sprint(k)
 			break
+		}
+	}
+	// C09.replay_preserves: a restart on the full journal, the never-acking subscriber resumes with a small
+	// Receive Maximum (its in-flight messages are replayed in several batches) and acknowledges nothing:
+	// the stored queue must hold the same messages in the same order afterwards
+	if len(vs) == 0 && p.Clients[0].Ver == 5 && p.Params["k"] == "" {
+		storeC := simredis.FromJournal(J, p.Seed)
+		before := storeC.Snapshot()
+		simredis.Install(storeC)
+		pc := &sim.Plan{Prop: "C09", Seed: p.Seed, Broker: p.Broker, Net: sim.NetCfg{Seed: p.Net.Seed, LatMaxUs: 5}, Sched: sim.SchedCfg{Seed: p.Sched.Seed + 7777, SwitchProb: 0.1}}
+		pc.Clients = append([]sim.ClientSpec{}, p.Clients...)
+		rm := uint16(1 + p.Seed%3)
+		pc.Phases = append(pc.Phases, sim.Phase{TimeoutS: 20, Ops: []sim.Op{{K: "connect", C: 0, Clean: false, Ack: "never", ExpiryS: sim.U32(90000), RecvMax: sim.U16(rm)}}})
+		pc.Phases = append(pc.Phases, sim.Phase{Ops: []sim.Op{{K: "sleep", C: -1, D: sim.Sec(1)}}})
+		c := sim.Run(t, pc, c09setup(storeC))
+		out.Steps += c.Steps
+		if c.H != nil && c.LoopErr == nil {
+			after := storeC.Snapshot()
+			seq := func(snap map[string]any) []string {
+				var out []string
+				l, _ := snap["queue:"+p.Clients[0].ID].([]string)
+				for _, e := range l {
+					for _, pf := range pubs {
+						if strings.Contains(e, fmt.Sprintf("%x", pf.payload)) {
+							out = append(out, pf.payload)
+						}
+					}
+				}
+				return out
+			}
+			b4, af := seq(before), seq(after)
+			out.Probes["replay_preserves_checked"]++
+			if len(b4) > int(rm) {
+				out.Probes["replay_in_batches"]++
+			}
+			if fmt.Sprint(b4) != fmt.Sprint(af) {
+				vs = append(vs, viol("C09", "replay_preserves", "queue-rewritten", "restart on the full journal, subscriber %q resumes with Receive Maximum %d and acknowledges nothing: its stored queue held %v before and holds %v after the in-flight replay", p.Clients[0].ID, rm, b4, af))
+			}
 		}
 	}
 	out.Viol = vs
